@@ -57,7 +57,7 @@ impl St {
             St::AddColumn(s, c) => format!("ALTER TABLE {} ADD COLUMN {} INT", SPELL[*s].0, c),
             St::DropColumn(s, c) => format!("ALTER TABLE {} DROP COLUMN {}", SPELL[*s].0, c),
             St::ChangeColumn(s, o, n) => format!("ALTER TABLE {} CHANGE COLUMN {} {} INT", SPELL[*s].0, o, n),
-            St::ModifyColumn(s, c) => format!("ALTER TABLE {} MODIFY COLUMN {} BIGINT", SPELL[*s].0, c),
+            St::ModifyColumn(s, c) => format!("ALTER TABLE {} MODIFY COLUMN {} INT", SPELL[*s].0, c),
         }
     }
     fn model(&self) -> String {
@@ -194,6 +194,40 @@ fn spelling(name: &str) -> String {
     }
 }
 
+/// The parser rejects a delimited table name after INSERT INTO / DELETE FROM (and possibly
+/// ALTER TABLE): such statements are parsed for a placeholder name and the table name is set on
+/// the AST (as the engine's own tests do)
+fn exec_st(db: &mut Db, st: &St) -> Out {
+    let delimited = |s: &usize| !SPELL[*s].2;
+    let target = match st {
+        St::Insert(s, _) | St::Clear(s) | St::AddColumn(s, _) | St::DropColumn(s, _) | St::ChangeColumn(s, _, _) | St::ModifyColumn(s, _) if delimited(s) => Some(SPELL[*s].1.to_string()),
+        _ => None,
+    };
+    let Some(name) = target else { return db.exec(&st.sql()) };
+    let sql = st.sql().replace(SPELL[2].0, "zzplaceholder");
+    let mut stmt = match Db::parse(&sql) {
+        Ok(s) => s,
+        Err(o) => return o,
+    };
+    use vibesql_ast::{AlterColumnStmt, AlterTableStmt, Statement};
+    match &mut stmt {
+        Statement::Insert(x) => x.table_name = name,
+        Statement::Delete(x) => x.table_name = name,
+        Statement::AlterTable(a) => match a {
+            AlterTableStmt::AddColumn(x) => x.table_name = name,
+            AlterTableStmt::DropColumn(x) => x.table_name = name,
+            AlterTableStmt::ModifyColumn(x) => x.table_name = name,
+            AlterTableStmt::ChangeColumn(x) => x.table_name = name,
+            AlterTableStmt::AlterColumn(x) => match x {
+                AlterColumnStmt::SetDefault { table_name, .. } | AlterColumnStmt::DropDefault { table_name, .. } | AlterColumnStmt::SetNotNull { table_name, .. } | AlterColumnStmt::DropNotNull { table_name, .. } => *table_name = name,
+            },
+            _ => {}
+        },
+        _ => {}
+    }
+    db.exec_stmt(&stmt)
+}
+
 fn run_case(stmts: &[St], model: &mut model::Model, rep: &mut Report, label: &str) {
     let mut db = Db::new();
     db.keep_log = false;
@@ -204,7 +238,7 @@ fn run_case(stmts: &[St], model: &mut model::Model, rep: &mut Report, label: &st
     let mut stop = false;
     for (k, st) in stmts.iter().enumerate() {
         let before = observe(&db);
-        let out = db.exec(&st.sql());
+        let out = exec_st(&mut db, st);
         rep.count(&format!("stmt_{}", st.kind()));
         if !out.is_ok() {
             rep.count(&format!("stmt_error_{}", out.err_class().unwrap_or("panic")));
@@ -513,24 +547,24 @@ fn gen(r: &mut Rng) -> Vec<St> {
                 if r.chance(3, 4) { St::DropIndex(idx_names.remove(i)) } else { St::DropIndex(idx_names[i].clone()) }
             }
         } else if w < 78 {
-            let s = if SPELL[s].2 { s } else { 0 };
+            let s = if SPELL[s].2 || r.chance(2, 3) { s } else { 0 };
             let k = if r.chance(1, 8) { r.range(1, 4) as usize } else { *width.get(SPELL[s].1).unwrap_or(&2) };
             St::Insert(s, (0..k).map(|_| r.range(1, 3)).collect())
         } else if w < 84 {
-            let s = if SPELL[s].2 { s } else { 0 };
+            let s = if SPELL[s].2 || r.chance(2, 3) { s } else { 0 };
             St::Clear(s)
         } else if w < 90 {
-            let s = if SPELL[s].2 { s } else { 1 };
+            let s = if SPELL[s].2 || r.chance(2, 3) { s } else { 1 };
             St::AddColumn(s, *r.pick(&["d", "c", "e"]))
         } else if w < 94 {
-            let s = if SPELL[s].2 { s } else { 1 };
+            let s = if SPELL[s].2 || r.chance(2, 3) { s } else { 1 };
             St::DropColumn(s, *r.pick(&["b", "c", "d", "b2"]))
         } else if w < 98 {
-            let s = if SPELL[s].2 { s } else { 1 };
+            let s = if SPELL[s].2 || r.chance(2, 3) { s } else { 1 };
             let (o, n) = *r.pick(&[("b", "b2"), ("c", "c2"), ("b2", "b"), ("a", "a2")]);
             St::ChangeColumn(s, o, n)
         } else {
-            let s = if SPELL[s].2 { s } else { 1 };
+            let s = if SPELL[s].2 || r.chance(2, 3) { s } else { 1 };
             St::ModifyColumn(s, *r.pick(&["b", "c"]))
         };
         v.push(st);
@@ -547,6 +581,14 @@ fn probes() -> Vec<(&'static str, Vec<St>)> {
         ("index-on-missing", vec![St::CreateIndex("i1".into(), 3, vec!["a"]), St::CreateTable(3, ab.clone()), St::CreateIndex("i1".into(), 3, vec!["z"]), St::CreateIndex("i1".into(), 3, vec!["a"]), St::CreateIndex("i1".into(), 3, vec!["b"]), St::Insert(3, vec![1]), St::Insert(3, vec![1, 2]), St::Clear(3)]),
         ("delimited-index-names", vec![St::CreateTable(0, abc.clone()), St::Insert(0, vec![1, 2, 3]), St::CreateIndex("\"idx_a\"".into(), 0, vec!["b"]), St::CreateIndex("\"Idx B\"".into(), 0, vec!["b", "c"]), St::CreateIndex("ix1".into(), 0, vec!["c"]), St::CreateIndex("\"ix1\"".into(), 0, vec!["a"]), St::DropColumn(0, "b"), St::CreateIndex("\"idx_a\"".into(), 0, vec!["c"]), St::DropIndex("\"ix1\"".into()), St::DropIndex("ix1".into())]),
         ("change-column-with-delimited-index", vec![St::CreateTable(0, abc.clone()), St::Insert(0, vec![1, 2, 3]), St::CreateIndex("\"idx_b\"".into(), 0, vec!["b"]), St::CreateIndex("ixc".into(), 0, vec!["c", "b"]), St::ChangeColumn(0, "b", "b2"), St::Insert(0, vec![4, 5, 6]), St::ModifyColumn(0, "c"), St::DropColumn(0, "b2"), St::CreateIndex("\"idx_b\"".into(), 0, vec!["a"])]),
+        ("namesakes-different-rows-rebuilds", vec![
+            St::CreateTable(2, abc.clone()), St::CreateTable(1, abc.clone()),
+            St::Insert(2, vec![1, 1, 1]), St::Insert(2, vec![2, 2, 2]), St::Insert(1, vec![3, 3, 3]), St::Insert(1, vec![1, 2, 3]), St::Insert(1, vec![2, 1, 1]),
+            St::CreateIndex("ilow".into(), 2, vec!["a"]), St::CreateIndex("iup".into(), 1, vec!["a"]),
+            St::AddColumn(2, "d"), St::AddColumn(1, "d"), St::ModifyColumn(2, "b"), St::ChangeColumn(2, "c", "c2"), St::ChangeColumn(1, "c", "c2"),
+            St::DropColumn(2, "b"), St::DropColumn(1, "b"), St::Insert(2, vec![3, 1, 1]), St::Clear(1), St::Insert(1, vec![2, 2, 2]), St::Clear(2), St::Insert(2, vec![1, 1, 1]),
+        ]),
+        ("empty-delimited-table-alter", vec![St::CreateTable(2, ab.clone()), St::CreateTable(1, ab.clone()), St::Insert(1, vec![1, 1]), St::Insert(1, vec![2, 2]), St::CreateIndex("ilow".into(), 2, vec!["a"]), St::AddColumn(2, "c"), St::ModifyColumn(2, "b")]),
         // repaired defect ecda3d9a, kept as regression probes
         ("add-column (regression: ecda3d9a)", vec![St::CreateTable(0, ab.clone()), St::Insert(0, vec![1, 1]), St::AddColumn(0, "c")]),
         ("drop-column (regression: ecda3d9a)", vec![St::CreateTable(0, abc.clone()), St::CreateIndex("qc".into(), 0, vec!["c"]), St::Insert(0, vec![1, 2, 3]), St::DropColumn(0, "b")]),
